@@ -35,6 +35,12 @@ func init() {
 }
 
 func runC15(c *an.Ctx) {
+	// ---- C15-R10: builder wiring of the components this property rests on
+	c.Floor("C15-R10", 3)
+	builderWiring(c, "C15-R10", map[string][]string{
+		"initDNS|dnssvc.HandlersConfig":      {"QueryLog", "BillStat", "ProfileDB"},
+		"queryLog|querylog.FileSystemConfig": nil,
+	})
 	// ---- R9: a request is served (and therefore logged and billed) at most once; a deleted profile replaces the live record at once
 	c.Floor("C15-R9", 3)
 	c.Borrow("C15-R9", runC09, func(o an.Obligation) bool { return o.Rule == "C09-R1" })
